@@ -34,12 +34,16 @@ pub const FRAMES: usize = 50;
 pub const RESID_MAX: f64 = TAU;
 /// Requested eigenvalues below DYN·λ₁ put a case into the "wide dynamic range" class (see check_pca).
 pub const DYN: f64 = 1e-4;
-/// Known finding `eigenpairs-misassigned`: both eigenvalues of the transposed pair lie below MISPAIR_TAIL·λ₁ (mechanism: the
-/// skipped 2x2 rotation needs an off-diagonal below eps in absolute terms, impossible for eigenvalues comparable to λ₁;
-/// largest observed on the unchanged tree: 6.8e-3·λ₁).
-pub const MISPAIR_TAIL: f64 = 1e-2;
-/// Known finding `inconsistent-components`: smallest requested eigenvalue below GARBAGE_TAIL·λ₁.
-pub const GARBAGE_TAIL: f64 = 1e-5;
+/// Known finding `eigenpairs-misassigned`, necessary condition taken from the code of linfa-linalg 0.1.0 `symmetric_eig`:
+/// its 2x2 step writes the two eigenvalues in descending order and rotates the vectors only if
+/// `GivensRotation::try_new(e0 − d11, off, eps)` succeeds, i.e. if hypot(e0 − d11, off) > eps in *absolute* terms on the
+/// matrix scaled to max-entry 1; for an ascending diagonal that is |off| > eps, while the block is only reached when
+/// |off| > eps·(|d00| + |d11|). Both hold together only if |d00| + |d11| < 1, i.e. λ_a + λ_b < (max entry) <= λ₁.
+/// Observed on the fixed tree: (λ_a + λ_b)/λ₁ between 1e-5 and 2.6e-2.
+pub const MISPAIR_SUM: f64 = 1.0;
+/// Known finding `inconsistent-components`: smallest requested eigenvalue below GARBAGE_TAIL·λ₁ (observed on the
+/// fixed tree: 1.7e-6 and 1.2e-5).
+pub const GARBAGE_TAIL: f64 = 1e-4;
 /// `pca:ritz-residual`: allowed multiple of the configured solver tolerance (the seeded 1e-3 precision is 1e4 units).
 pub const RITZ_SLACK: f64 = 100.0;
 /// `pca:ritz-residual` is asserted for a relative gap (λ_k − λ_{k+1})/λ_k of at least this.
@@ -381,8 +385,8 @@ pub fn check_pca(c: &Case, obs: &mut Obs) {
     //     follow-up iteration normally repairs it; when that step fails the transposition survives.
     //     Recognised constructively as "exact answer up to one transposition": every component is an eigenvector on
     //     its own scale, rows are unit-scaled and mutually (C-)orthogonal, values are sorted and every sigma_j^2/(n-1)
-    //     equals the eigenvalue λ_j of its rank; every component carries its own variance except one pair (a, b), both
-    //     eigenvalues < MISPAIR_TAIL·λ₁, which carry each other's (b may lie beyond k, truncated away: then only
+    //     equals the eigenvalue λ_j of its rank; every component carries its own variance except one pair (a, b) with
+    //     λ_a + λ_b < λ₁ (necessary for the skipped rotation, see MISPAIR_SUM), which carry each other's (b may lie beyond k, truncated away: then only
     //     component a shows it, carrying λ_b). With that verified nothing else about the answer is left to be wrong.
     let mut mispair: Option<(usize, usize)> = None;
     if in_range && small_problem && sorted && leading_ok && unit_rows && ritz_like && resid_own <= RESID_MAX && kk == k {
@@ -394,7 +398,7 @@ pub fn check_pca(c: &Case, obs: &mut Obs) {
             _ => None,
         };
         if let Some((a, b)) = cand {
-            if lam[a] < MISPAIR_TAIL * lam1 && lam[b] < MISPAIR_TAIL * lam1 {
+            if lam[a] + lam[b] < MISPAIR_SUM * lam1 {
                 mispair = Some((a, b));
             }
         }
@@ -413,22 +417,60 @@ pub fn check_pca(c: &Case, obs: &mut Obs) {
             )),
         );
     }
+    // (C) `eigenvector-pair-rotated` (about 1 fit in 10^6, full-space path): the answer is exact except that two
+    //     components a < b are rotated inside the plane of their two eigenvectors by more than the tolerance allows
+    //     (observed 5e-3 and 3e-2 rad on the two leading components): both lie in span{e_a, e_b} of the reference
+    //     eigenvectors (residual outside that plane <= RESID_MAX), all other components are eigenvectors on their own
+    //     scale, rows unit-scaled and mutually orthogonal, values sorted and equal to the eigenvalues of their rank.
+    let mut rotated: Option<(usize, usize, f64)> = None;
+    if mispair.is_none() && in_range && small_problem && sorted && leading_ok && unit_rows && kk == k && evecs.len() == p {
+        // which components fail to be eigenvectors on their own scale
+        let bad: Vec<usize> = (0..kk)
+            .filter(|&j| {
+                let r2: f64 = cus[j].iter().zip(&dirs[j]).map(|(a, b)| (a - qs[j] * b).powi(2)).sum();
+                r2.sqrt() > RESID_MAX * qs[j].abs()
+            })
+            .collect();
+        if let [a, b] = bad.as_slice() {
+            let (a, b) = (*a, *b);
+            let coord = |j: usize, m: usize| -> f64 { evecs[m].iter().zip(&dirs[j]).map(|(x, y)| x * y).sum() };
+            let in_plane = |j: usize| {
+                let (ca, cb) = (coord(j, a), coord(j, b));
+                (1.0 - (ca * ca + cb * cb)).abs() <= RESID_MAX
+            };
+            let uu: f64 = dirs[a].iter().zip(&dirs[b]).map(|(x, y)| x * y).sum();
+            if in_plane(a) && in_plane(b) && uu.abs() <= TAU {
+                rotated = Some((a, b, coord(a, b).abs().max(coord(b, a).abs())));
+            }
+        }
+    }
+    if let Some((a, b, angle)) = rotated {
+        spectral = false;
+        obs.class("solver_failed");
+        obs.class("solver_failed:eigenvector_pair_rotated");
+        obs.fail(
+            "pca:solver-breakdown:eigenvector-pair-rotated",
+            describe(&format!(
+                "full-space path: exact decomposition except that components {a} and {b} are rotated by {angle:.2e} rad inside the plane of eigenvectors {a} and {b}"
+            )),
+        );
+    }
     // (B) `inconsistent-components`: in the same full-space path the follow-up iteration works with a singular Gram
     //     matrix (eigenvalues clamped at 1e-10) and can inject errors of order 1e-6·λ₁ into the trailing components.
     //     Precondition: 5k > min(n,p), smallest requested eigenvalue below GARBAGE_TAIL·λ₁, and a component that is
     //     neither an eigenvector on its own scale nor part of a genuine set of Ritz pairs.
     let garbage = resid_own > RESID_MAX && (!ritz_like || mismatch > RESID_MAX);
     obs.class_if(!in_range && garbage, "beyond_singular_ratio_1e3:solver_inaccurate");
-    if in_range && small_problem && garbage && lam[k - 1] < GARBAGE_TAIL * lam1 {
+    if mispair.is_none() && rotated.is_none() && in_range && small_problem && garbage && lam[k - 1] < GARBAGE_TAIL * lam1 {
         spectral = false;
         obs.class("solver_failed");
         obs.class("solver_failed:inconsistent_tail_components");
         obs.fail(
             "pca:solver-breakdown:inconsistent-components",
             describe(if !ritz_like {
-                "full-space path, lambda_k < 1e-5 lambda_1: a returned component is not an eigenvector of the sample covariance on its own scale, and the components are not mutually orthogonal / uncorrelated either"
+                "full-space path, lambda_k < 1e-4 lambda_1: a returned component is not an eigenvector of the sample covariance on its own scale, and the components are not mutually orthogonal / uncorrelated either"
             } else {
-                "full-space path, lambda_k < 1e-5 lambda_1: a returned component is not an eigenvector of the sample covariance on its own scale, and sigma^2/(n-1) is not the variance along it either (no Ritz pair)"
+                "full-space path, lambda_k < 1e-4 lambda_1: a returned component is not an eigenvector of the sample covariance on its own scale, and sigma^2/(n-1) is not the variance along it either (no Ritz pair)"
             }),
         );
     }
@@ -849,7 +891,7 @@ pub fn property() -> Property {
             "inverse_transform(transform(X)) is required to be the orthogonal projection about the mean for whitened models too (the statement quantifies over whitening on/off; DESIGN restricted it to un-whitened models)".into(),
             format!("design domain singular ratio <= 1e3: when lambda_k < {RANGE_MIN:e}*lambda_1 (sampling fluctuation, n close to p) only the solver-independent obligations are judged (class beyond_singular_ratio_1e3); data with (n-1)*lambda_1 < {SCALE_MIN:e} (reachable only by shrinking) is not judged"),
             format!("PCA exposes no convergence flag; every obligation is evaluated on whatever fit returns, with one exception: outside 5k > p, a result that the independent residual shows unconverged on a component's own scale, that is a genuine set of Ritz pairs and misses the lambda_1-scaled optimality tolerances by at most a factor {NOT_CONVERGED_SLACK} is counted as not judged (LOBPCG stopped at its iteration limit 2n)"),
-            format!("known findings are recognised only under the exact precondition of the external defect: pca:solver-breakdown:eigenpairs-misassigned = full-space path (5k > min(n,p)) and the answer is the exact decomposition up to ONE transposition: all components eigenvectors with unit-scaled mutually (C-)orthogonal rows, all sigma_j^2/(n-1) sorted and equal to the eigenvalue of their rank, every component carrying its own variance except one pair (a,b), both eigenvalues < {MISPAIR_TAIL:e}*lambda_1, carrying each other's (b may be truncated away); pca:solver-breakdown:inconsistent-components = full-space path, lambda_k < {GARBAGE_TAIL:e}*lambda_1, a component that is no eigenvector within {RESID_MAX:e} of its own variance and no member of a set of Ritz pairs; every other deviation fails under the ordinary signatures (pca:singular-value, pca:subspace, pca:retained-variance, pca:whitened-covariance, ...)"),
+            format!("known findings are recognised only under the exact precondition of the external defect: pca:solver-breakdown:eigenpairs-misassigned = full-space path (5k > min(n,p)) and the answer is the exact decomposition up to ONE transposition: all components eigenvectors with unit-scaled mutually (C-)orthogonal rows, all sigma_j^2/(n-1) sorted and equal to the eigenvalue of their rank, every component carrying its own variance except one pair (a,b) with lambda_a + lambda_b < {MISPAIR_SUM}*lambda_1 (necessary condition of the skipped 2x2 rotation in linfa-linalg symmetric_eig) carrying each other's (b may be truncated away); pca:solver-breakdown:inconsistent-components = full-space path, lambda_k < {GARBAGE_TAIL:e}*lambda_1, a component that is no eigenvector within {RESID_MAX:e} of its own variance and no member of a set of Ritz pairs; pca:solver-breakdown:eigenvector-pair-rotated = full-space path, exact answer except two components rotated inside the plane of their own two eigenvectors; every other deviation fails under the ordinary signatures (pca:singular-value, pca:subspace, pca:retained-variance, pca:whitened-covariance, ...)"),
             format!("pca:ritz-residual: |C v_j - (sigma_j^2/(n-1)) v_j| <= {RITZ_SLACK} * 1e-10 * max(trace C, 1/(n-1)) (the stopping tolerance linfa configures: precision 1e-5*|Xc|_F, squared by linfa-linalg, on the eigenproblem of Xc^T Xc) is asserted where LOBPCG runs inside its domain and is not cut short by its iteration limit: 5k <= p, 2n >= 10p, relative gap at k >= {RITZ_MIN_GAP}; measured on the unchanged tree (12 quick seeds, about 240 000 such fits): all within 1 x the tolerance. Outside that regime the unchanged tree itself leaves residuals up to ~3e3 x the tolerance (clustered trailing eigenvalues, iteration limit 2n), so nothing tighter than the lambda_1-scaled TAU obligations can be asserted there"),
             "a panic of fit whose payload is linfa-linalg's `NaN values in array` AND whose recorded site is linfa-linalg .../eigh.rs is signature pca:solver-breakdown:nan-panic; any other panic (other payload or other site) is panic:fit".into(),
             "exactly k components are expected inside the design domain (the solver's rank cut-off pinned by test_explained_variance_cutoff is far below it)".into(),
